@@ -1,25 +1,36 @@
 #!/bin/bash
-# selftest.sh [pattern]: for every mutants/<pattern>*.patch apply it to /repo, run the repository suite
-# (guard off) and every check's quick tier, revert. Prints one line per mutant:
-#   <name> tests=<pass|FAIL> fired=<checks with rc 1> broken=<checks with rc 2>
-# Benign variants (benign-*) must fire nothing. Results go to /verif/mutants/MATRIX.txt as well.
+# selftest.sh [pattern]: for every mutants/<pattern>*.patch: apply it to a scratch worktree of /repo
+# (never to /repo itself), run the repository suite there (guard off) and every check's quick tier
+# against it (VERIF_REPO), revert. One line per mutant goes to stdout and mutants/MATRIX.txt:
+#   <name> tests=<pass|FAIL> fired=[checks with exit 1] broken=[checks with exit 2]
+# benign-* variants must fire nothing; every other patch must fire at least one check.
+# The scratch worktree and its build output are removed at the end.
 cd /verif
 PAT="${1:-}"
 OUT=/verif/mutants/MATRIX.txt
+SCR=/tmp/cbv-selftest
 [ -z "$PAT" ] && : > $OUT
 ALL="C01 C02 C03 C04 C05 C06 C07 C08 C09 C10 C11 C12 C13 C14 C15 C16 C17 C18 C19"
+git -C /repo worktree remove --force $SCR 2>/dev/null
+git -C /repo worktree add -q $SCR HEAD || exit 2
+export VERIF_REPO=$SCR
+TAG="-$(echo -n "$SCR" | md5sum | cut -c1-8)"
+cleanup() {
+  git -C /repo worktree remove --force $SCR 2>/dev/null
+  rm -rf /verif/target/hooks$TAG /verif/target/plain$TAG /verif/harness$TAG /verif/target/build$TAG.log* /verif/target/selftest
+}
+trap cleanup EXIT
 for P in mutants/${PAT}*.patch; do
   name=$(basename $P .patch)
-  ( cd /repo && git checkout -q -- . && git apply /verif/$P ) || { echo "$name cannot-apply" | tee -a $OUT; continue; }
-  if ( cd /repo && CARGO_TARGET_DIR=/verif/target/selftest cargo test --workspace --no-fail-fast --offline >/verif/target/selftest.log 2>&1 ); then t=pass; else t=FAIL; fi
+  ( cd $SCR && git checkout -q -- . && git apply /verif/$P ) || { echo "$name cannot-apply" | tee -a $OUT; continue; }
+  if ( cd $SCR && CARGO_TARGET_DIR=/verif/target/selftest cargo test --workspace --no-fail-fast --offline >/verif/target/selftest.log 2>&1 ); then t=pass; else t=FAIL; fi
   fired=""; broken=""
   for c in ${CHECKS:-$ALL}; do
-    ./check $c --tier quick >/verif/target/selftest-check.log 2>&1; rc=$?
+    VERIF_EVIDENCE_DIR=/tmp/cbv-selftest-evidence ./check $c --tier quick >/verif/target/selftest-check.log 2>&1; rc=$?
     [ $rc -eq 1 ] && fired="$fired $c"
     [ $rc -ge 2 ] && broken="$broken $c"
   done
-  ( cd /repo && git checkout -q -- . )
-  rm -f /verif/replays/*.json
+  ( cd $SCR && git checkout -q -- . )
   echo "$name tests=$t fired=[${fired# }] broken=[${broken# }]" | tee -a $OUT
 done
-# leave the evidence files describing the unchanged tree
+rm -rf /tmp/cbv-selftest-evidence /verif/replays-selftest
